@@ -1834,10 +1834,22 @@ class FloodFillSubsetState(MaskSubsetState):
 
     @classmethod
     def __setgluestate__(cls, rec, context):
-        att = context.object(rec['attribute'])
-        return cls(att.parent, att,
-                   context.object(rec['start_coords']),
-                   context.object(rec['threshold']))
+        # The dataset is recovered from the attribute, but it may not have
+        # been restored yet at this point, so we finish the initialization in
+        # __setgluestate_callback__ once everything has been loaded.
+        self = cls.__new__(cls)
+        self._att = context.object(rec['attribute'])
+        self._data = None
+        self._start_coords = tuple(context.object(rec['start_coords']))
+        self._threshold = float(context.object(rec['threshold']))
+        self._cids = []
+        self._mask_cache = (None, None)
+        return self
+
+    def __setgluestate_callback__(self, context):
+        self._data = self._att.parent
+        self._cids = self._data.pixel_component_ids
+        self._compute_mask()
 
 
 class RoiSubsetState3d(RoiSubsetStateNd):
